@@ -287,9 +287,22 @@ def dropoff(ctx: Ctx):
         if p.kind != "return" or flow.classify_result(p.value) == "error":
             continue
         # a condition such as `not (underway and len(route) == 0)` leaves a disjunction open: look at each case
-        def on_trip(case):
-            return any(pol is True and flow.dump(a).startswith("isinstance(") and flow.dump(a).endswith(".vehicle_state, ServicingTrip)") for a, pol in case)
-        if not any(on_trip(case) and 0 in gd.allowed_lengths(case, moved_route) for case in p.fact_cases()):
+        if flow.classify_result(p.value) in ("reject", "none"):
+            continue
+        def off_trip(case):
+            # the path established that the moved vehicle is no longer on its trip: it went out of service / is in another activity
+            for a, pol in case:
+                d = flow.dump(a)
+                if d.startswith("isinstance(") and d.endswith(".vehicle_state, ServicingTrip)") and pol is False:
+                    return True
+                if d.endswith(".vehicle_state.vehicle_state_type == VehicleStateType.OUT_OF_SERVICE") and pol is True:
+                    return True
+                if d.endswith(".vehicle_state.vehicle_state_type != VehicleStateType.OUT_OF_SERVICE") and pol is False:
+                    return True
+                if d.startswith("isinstance(") and d.endswith(".vehicle_state, OutOfService)") and pol is True:
+                    return True
+            return False
+        if not any((not off_trip(case)) and 0 in gd.allowed_lengths(case, moved_route) for case in p.fact_cases()):
             continue  # the route cannot be empty here (or the vehicle is no longer on its trip)
         dropped = any(e.name == "drop_off_trip" and not e.deferred for e in p.events)
         ctx.check(dropped, "D5", "DU.provenance", "ServicingTrip._perform_update: whenever the moved vehicle's route is empty the passengers are dropped off in this very update", fn, p.end,
